@@ -1,8 +1,10 @@
 package cli
 
 import (
+	"encoding/json"
 	"fmt"
 	"io"
+	"math/big"
 	"strings"
 
 	"github.com/itchyny/go-yaml"
@@ -43,8 +45,31 @@ func (m *yamlMarshaler) marshal(v any, w io.Writer) error {
 	} else {
 		enc.SetIndent(2)
 	}
-	if err := enc.Encode(v); err != nil {
+	if err := enc.Encode(bigIntToNumber(v)); err != nil {
 		return err
 	}
 	return enc.Close()
+}
+
+// The YAML encoder writes *big.Int as a quoted string, so convert it to
+// json.Number, which is written as is. The value is not modified.
+func bigIntToNumber(v any) any {
+	switch v := v.(type) {
+	case *big.Int:
+		return json.Number(v.String())
+	case []any:
+		w := make([]any, len(v))
+		for i, v := range v {
+			w[i] = bigIntToNumber(v)
+		}
+		return w
+	case map[string]any:
+		w := make(map[string]any, len(v))
+		for k, v := range v {
+			w[k] = bigIntToNumber(v)
+		}
+		return w
+	default:
+		return v
+	}
 }
